@@ -19,10 +19,14 @@ def run(ctx):
     rng = ctx.rng
     n = 4 if not ctx.thorough else 16
     ctx.rule("all optimizers that do not read Agent.fitness / Task.minmax (table obligation T12) × objectives {sphere, linear, rastrigin, neg} × bounds regimes × configs (1..4 cycles; plus every validator-accepted candidate value of every algorithm parameter once) × seeds; in a third of the pairs the maximising instance has just solved a task of the opposite direction: "
-             "run(max, f) vs run(min, -f): same positions generation by generation, costs exact negatives, bit for bit; a case = one pair of runs; non-trivial = ≥ 2 generations")
+             "plus one integer-valued (plateau) objective per class; run(max, f) vs run(min, -f): same positions generation by generation, costs exact negatives, bit for bit, and the trend utilities name the same agents at ranks 0/1/middle/last of every generation (ties included); a case = one pair of runs; non-trivial = ≥ 2 generations")
     names = [x for x in optimizers.names() if x not in EXCLUDED]
     js = jobs.make_jobs(rng, names, ["cont-sym", "cont", "cont-zero", "cont-onesided", "mixed", "disc"], n, modes=("serial",), minmaxes=("max",), max_cycles_choices=(1, 2, 3, 4), trace_events=False)
     js += jobs.param_sweep_jobs(rng, names, kinds=("cont-sym", "cont"), max_cycles=2, objectives=("sphere", "rastrigin", "linear"), minmaxes=("max",))
+    # integer-valued objective: generations with equal costs at different positions (the readers must break ties alike in both directions)
+    for name in names:
+        js.append({"name": name, "kind": "plateau", "specs": trace.task_specs(rng, rng.choice(["cont-sym", "cont"]), rng.choice([2, 3])), "objective": "plateau", "minmax": "max",
+                   "seed": rng.randrange(1, 10 ** 6), "cfg": {"max_cycles": rng.choice([2, 3]), "fitness_error": None}, "mode": "serial", "trace": False})
     for j in rng.sample(js, len(js) // 3):
         j["reuse"] = True                      # the maximising instance has already solved a task of the opposite direction
         j["kind"] = j["kind"] + "+reused"
@@ -48,6 +52,21 @@ def run(ctx):
                     break
         if problem:
             ctx.fail(f"C12/{j['name']}/max-f-differs-from-min-negf", problem, "S-rel", {"job": oracles.job_key(j)})
+            continue
+        # the readers (C12.c12_readers): the agent of rank k of generation i is at the same position with the negated cost in both results, ties included
+        ua, ub = r.get("readers_max") or {}, r.get("readers_min") or {}
+        ties = any(len({x["cost"] for x in g}) < len(g) for g in a["evolution"])
+        ctx.dist["c12-pairs-with-cost-ties" if ties else "c12-pairs-without-ties"] += 1
+        for key in sorted(set(ua) | set(ub)):
+            x, y = ua.get(key), ub.get(key)
+            if isinstance(x, dict) and isinstance(y, dict) and "pos" in x and "pos" in y:
+                if x["pos"] != y["pos"] or x["trend"] != [bits(-from_bits(c)) for c in y["trend"]]:
+                    ctx.fail("C12/utils/rank-k-agent-differs-between-max-f-and-min-negf", f"{j['name']}: {key}: the trend utilities name different agents in the two results"
+                             + (" (generations with equal costs)" if ties else ""), "S-rel", {"job": oracles.job_key(j), "reader": key})
+                    break
+            elif x != y and not (isinstance(x, list) and isinstance(y, list)):
+                ctx.fail("C12/utils/rank-k-agent-differs-between-max-f-and-min-negf", f"{j['name']}: {key}: {x} vs {y}", "S-rel", {"job": oracles.job_key(j), "reader": key})
+                break
     ctx.sample({"job": oracles.job_key(js[0]), "generations": len(res[0]["max"].get("evolution", []))})
 
 
@@ -58,5 +77,8 @@ def replay(case):
     r = rel.run_c12(j)
     a, b = r["max"], r["min"]
     same = "evolution" in a and "evolution" in b and all([x["pos"] for x in g1] == [x["pos"] for x in g2] for g1, g2 in zip(a["evolution"], b["evolution"]))
-    print(json.dumps({"job": j, "same_positions": same}, indent=1, default=str))
-    return 0 if same else 1
+    ua, ub = r.get("readers_max") or {}, r.get("readers_min") or {}
+    readers = all((not (isinstance(ua.get(k), dict) and "pos" in ua[k] and isinstance(ub.get(k), dict) and "pos" in ub[k])) or
+                  (ua[k]["pos"] == ub[k]["pos"] and ua[k]["trend"] == [bits(-from_bits(c)) for c in ub[k]["trend"]]) for k in set(ua) | set(ub))
+    print(json.dumps({"job": j, "same_positions": same, "trend_utilities_name_the_same_agents": readers}, indent=1, default=str))
+    return 0 if same and readers else 1
